@@ -133,6 +133,27 @@ func (vc *VC) Solve(cfg SolverCfg, stats *SolveStats, sem chan struct{}) {
 			go func() {
 				defer wg.Done()
 				content := body + oblQuery(o) + "\n(check-sat)\n"
+				if o.Cover {
+					// reachability guards are first tried without the quantified
+					// assumptions (cheap; a model of the quantifier-free part is what
+					// the fallback below accepted anyway)
+					file0 := file + ".qf0.smt2"
+					os.WriteFile(file0, []byte(stripQuantified(body)+oblQuery(o)+"\n(check-sat)\n"), 0o644)
+					sem <- struct{}{}
+					out0, secs0 := runSolver(context.Background(), solvers[0], cfg.BatchMs, file0, cfg.BatchMs+5000)
+					<-sem
+					os.Remove(file0)
+					switch firstAnswer(out0) {
+					case "sat":
+						o.Status, o.Solver, o.Secs = "proved", "z3-new", secs0
+						o.Out = "reachable (quantified assumptions ignored)"
+						stats.add("z3-new", secs0)
+						return
+					case "unsat":
+						o.Status, o.Solver, o.Secs = "refuted", "z3-new", secs0
+						return
+					}
+				}
 				os.WriteFile(file, []byte(content), 0o644)
 				sem <- struct{}{}
 				out, secs := runSolver(context.Background(), solvers[0], cfg.BatchMs, file, cfg.BatchMs+5000)
